@@ -721,6 +721,10 @@ func (g *Gen) genSubWager() Op {
 		return o
 	}
 	o.Kind = "SWAG"
+	if g.chance(0.10) && len(g.usedBets) > 0 {
+		o.BetUID = pick(g.r, g.usedBets) // the id of an accepted bet, replayed through the subaccount message
+		g.stats["swag_replayed_uid"]++
+	}
 	o.Signer = g.subOwner()
 	o.Ky = g.kycFor(o.Signer)
 	o.Inner = o.Signer
@@ -927,7 +931,7 @@ func (g *Gen) Observe(o Op, res string) {
 				m.status = o.Status
 			}
 		}
-	case "WAG":
+	case "WAG", "SWAG":
 		g.usedBets = append(g.usedBets, o.BetUID)
 	}
 }
